@@ -147,9 +147,7 @@ impl MonoMidiReceiver {
                     CC_ALL_CONTROLLERS_OFF => self.reset_controllers(),
                     CC_ALL_NOTES_OFF => {
                         self.held_down_notes.clear();
-                        self.gate = false;
-                        self.rising_gate = false;
-                        self.falling_gate = false;
+                        self.drop_gate();
                     }
                     _ => (), // ignore all other MIDI CC messages
                 }
@@ -182,13 +180,20 @@ impl MonoMidiReceiver {
         self.held_down_notes.retain(|n| *n != note);
 
         if self.held_down_notes.is_empty() {
-            self.gate = false;
-            self.rising_gate = false;
-            self.falling_gate = true;
+            self.drop_gate();
         } else {
             // we know that there is at least one element in the vec
             self.note_num = self.choose_next_note();
         }
+    }
+
+    /// `mr.drop_gate()` lowers the gate, a falling edge is only signaled if the gate was actually high
+    fn drop_gate(&mut self) {
+        if self.gate {
+            self.falling_gate = true;
+        }
+        self.gate = false;
+        self.rising_gate = false;
     }
 
     /// `mr.choose_next_note()` is the next MIDI note to use based on the notes currently held down and note priority
